@@ -283,6 +283,21 @@ def run_harness(name, lines, env_extra=None, timeout=1800, binary=None):
     return p.stdout.splitlines()
 
 
+def run_harness_or_hang(name, prefix, lines, env_extra=None, timeout=240, each=30):
+    """run_harness(prefix + lines) under `timeout`; when it does not finish, run every line on its own (after the prefix) under
+    `each` seconds and return (None, first line that never finishes).  Otherwise (output lines after the prefix, None)."""
+    try:
+        return run_harness(name, prefix + lines, env_extra=env_extra, timeout=timeout)[len(prefix):], None
+    except subprocess.TimeoutExpired:
+        pass
+    for l in lines:
+        try:
+            run_harness(name, prefix + [l], env_extra=env_extra, timeout=each)
+        except subprocess.TimeoutExpired:
+            return None, l
+    return None, "(no single case hangs on its own; the whole stream of %d cases does not finish in %d s)" % (len(lines), timeout)
+
+
 # --------------------------------------------------------------- misc ------
 
 def hx(s):
